@@ -56,6 +56,10 @@ def gen_plan(r, index, tier):
     tasks = []
     for ti in range(r.randrange(2, 6)):
         kind = r.choice(TASK_KINDS)
+        if kind == 'native' and w['open_types']:
+            # the native decoder turns a typed open-type value (e.g. the int 2147483648) into an ANY of
+            # that many zero octets: a C17/C18 matter, and a 2 GiB allocation the harness must not make
+            kind = 'decode'
         codec = r.choice(codecs)
         t = {'t': kind, 'codec': codec}
         if kind == 'stream':
